@@ -36,6 +36,9 @@ WHAT = {
                              "(its last attempt's Iter)",
     "last-error-swallowed": "the error handed to the caller is not the last attempt's error of the execution that completed",
     "multiple-results": "more than one result was returned",
+    "executor-never-returns-after-cancel": "the caller's context ended (cancelled / deadline) after every execution had been "
+                                           "launched; every execution goroutine finished (each may drop its result once the "
+                                           "context is done), and executeQuery never returned: the caller gets no result",
     "no-result-returned": "executeQuery (or an execution goroutine) did not finish: the caller got no result",
     "executor-panic": "executeQuery panicked",
 }
@@ -57,6 +60,9 @@ def _cases_from(ctx, cfg, name, simulate=None, seed=None, timeout=600):
     if not out:
         raise vf.Inconclusive("behaviour dump %s produced nothing" % cfg)
     return out, r
+
+
+WIRE_CONCURRENT = ("e2e:spec", "e2e:spec-cancel")
 
 
 def _harness_dirs():
@@ -100,7 +106,7 @@ def _tlc_traces(ctx, traces, nshards):
     # DIFFERENT executions in the log need not be a linearisation Executor.tla accepts.  Those traces get the
     # property monitor only (every clause it evaluates there is order-insensitive across executions or uses
     # only per-execution causal order).
-    noconf = {t for t in traces if traces[t][0].get("mode") == "e2e:spec"}
+    noconf = {t for t in traces if traces[t][0].get("mode") in WIRE_CONCURRENT}
     ids = [t for t in traces if t not in noconf]
 
     def conf(p):
@@ -157,6 +163,9 @@ def run(ctx):
         jobs["defect"] = ex.submit(vf.run_tlc, ctx, "MC_Executor", "MC_Executor_defect.cfg", workers=1, timeout=300, heap="2g")
         jobs["witness"] = ex.submit(vf.run_tlc, ctx, "MC_Executor", "MC_Executor_witness.cfg", workers=2, timeout=600, heap="2g")
         jobs["tempting"] = ex.submit(vf.run_tlc, ctx, "MC_Executor", "MC_Executor_tempting.cfg", workers=1, timeout=300, heap="2g")
+        jobs["stuck"] = ex.submit(vf.run_tlc, ctx, "MC_Executor", "MC_Executor_stuck.cfg", workers=1, timeout=300, heap="2g",
+                                  deadlock=False)
+        jobs["rounds"] = ex.submit(_cases_from, ctx, "MC_Executor_cancelrounds.cfg", "dump_rounds")
         jobs["seq"] = ex.submit(_cases_from, ctx, "MC_Executor_seq.cfg" if quick else "MC_Executor_seqth.cfg", "dump_seq")
         jobs["conc"] = ex.submit(_cases_from, ctx, "MC_Executor_conc.cfg", "dump_conc",
                                  "num=%d" % (1500 if quick else 30000), ctx.seed)
@@ -176,6 +185,10 @@ def run(ctx):
         if res[k].violated != inv:
             raise vf.Inconclusive("control run %s: expected TLC to violate %s, got violated=%s error=%s" % (
                 k, inv, res[k].violated, res[k].error))
+    # the wrong variant "executeQuery waits for a result only after the last launch" must violate <>returned
+    if not str(res["stuck"].violated or "").startswith(("temporal", "Terminates", "deadlock")):
+        raise vf.Inconclusive("control run stuck: expected TLC to refute Defect_WaitResultsOnly (Terminates), got violated=%s error=%s" % (
+            res["stuck"].violated, res["stuck"].error))
     states = mc.distinct + (res["live"].distinct if "live" in res else 0)
     trans = mc.generated + (res["live"].generated if "live" in res else 0)
     seq_cases, seq_r = res["seq"]
@@ -192,6 +205,23 @@ def run(ctx):
     cap = 500 if quick else 16000
     if len(conc_cases) > cap:
         conc_cases = rnd.sample(conc_cases, cap)
+    # rounds of "the caller's context ends after every execution was launched and before any attempt answered"
+    # (all behaviours of a small instance with that shape; run() may then drop its result - the runtime's choice -
+    # so many rounds are executed: a variant that stops listening to the context hangs in 1 of 4)
+    def _round(c):
+        evs = [e["ev"] for e in c["hist"]]
+        if "cancel" not in evs:
+            return False
+        i = evs.index("cancel")
+        return (sum(1 for e in c["hist"][:i] if e["ev"] == "start") == c["cfg"]["k"] + 1
+                and not any(e["ev"] == "end" for e in c["hist"][:i]))
+    round_cases = [c for c in res["rounds"][0] if _round(c)]
+    if len(round_cases) < 20:
+        raise vf.Inconclusive("only %d cancel-round behaviours in the model dump" % len(round_cases))
+    nround = 64 if quick else 256
+    round_cases = [json.loads(json.dumps(round_cases[i % len(round_cases)])) for i in
+                   rnd.sample(range(max(nround, len(round_cases))), nround)]
+    conc_cases = conc_cases + round_cases
     cases = []
     for c in seq_cases + conc_cases:
         c["id"] = len(cases) + 1
@@ -263,7 +293,7 @@ def run(ctx):
     _confirm_timing_dependent(ctx, binary, cases, traces, sumby, mon)
     _verdicts(ctx, cases, traces, sumby, mon, acc)
 
-    nspec = sum(1 for t in traces.values() if t[0].get("mode") == "e2e:spec")
+    nspec = sum(1 for t in traces.values() if t[0].get("mode") in WIRE_CONCURRENT)
     casesby = {c["id"]: c for c in cases}
     nviol = sum(1 for m in mon.values() if m["viol"])
     exact = sum(1 for s in sums if s["exact"])
@@ -277,7 +307,8 @@ def run(ctx):
         model_configs=[dict(cfg=main_cfg, distinct=mc.distinct, generated=mc.generated, depth=mc.depth),
                        ] + ([dict(cfg="MC_Executor_live.cfg", distinct=res["live"].distinct, generated=res["live"].generated)]
                             if "live" in res else []),
-        controls=dict(defect_model_violates="NonIdemNeverRetried", bound_reached="budget + executions (5 = 2 + 3)",
+        cancel_round_replays=len(round_cases),
+        controls=dict(wait_results_only_variant_refuted="Terminates", defect_model_violates="NonIdemNeverRetried", bound_reached="budget + executions (5 = 2 + 3)",
                       tempting_bound_violated="budget + 1"),
         model_behaviours_replayed=len(cases), sequential_behaviours=len(seq_cases), concurrent_behaviours=len(conc_cases),
         replayed_exactly=exact, replays_bound_by_equality_only=len(bound_by_equality), free_running_executions=len(fsums) - len(esums), end_to_end_statements=len(esums),
@@ -304,8 +335,10 @@ def _confirm_timing_dependent(ctx, binary, cases, traces, sumby, mon):
     such a trace is kept only if it is raised again when the case is re-executed alone with a three times longer
     settle time; otherwise it is dropped (an overloaded machine, not the code)."""
     casesby = {c["id"]: c for c in cases}
+    # (a hang the driver established event based - "stuck" - is certain and, being a choice of the runtime inside
+    # a select, need not repeat: it is not a suspect)
     sus = [t for t, m in mon.items() if t in casesby and (
-        (m["viol"] and any(e["ev"] == "quiesce" for e in traces[t])) or sumby[t]["hang"])]
+        (m["viol"] and any(e["ev"] == "quiesce" for e in traces[t])) or (sumby[t]["hang"] and not sumby[t].get("stuck")))]
     if not sus:
         return
     sus = sus[:40]
@@ -319,7 +352,8 @@ def _confirm_timing_dependent(ctx, binary, cases, traces, sumby, mon):
     mon2, _, _, _ = _tlc_traces(ctx, tr2, 2) if tr2 else ({}, set(), 0, 0)
     dropped = 0
     for t in mon:
-        if not (t in casesby and ((mon[t]["viol"] and any(e["ev"] == "quiesce" for e in traces[t])) or sumby[t]["hang"])):
+        if not (t in casesby and ((mon[t]["viol"] and any(e["ev"] == "quiesce" for e in traces[t])) or
+                                  (sumby[t]["hang"] and not sumby[t].get("stuck")))):
             continue
         if t in mon2 and t in sums2:
             keep = [k for k in mon[t]["viol"] if k in mon2[t]["viol"]]
@@ -346,7 +380,9 @@ def _verdicts(ctx, cases, traces, sumby, mon, acc):
         s = sumby[tid]
         keys = list(m["viol"])
         if s["hang"] and not any(e["ev"] == "return" for e in traces[tid]):
-            keys.append("no-result-returned")
+            # certain (event based): the context is done, every execution goroutine has finished, no return
+            keys.append("executor-never-returns-after-cancel" if s.get("stuck") and any(e["ev"] == "cancel" for e in traces[tid])
+                        else "no-result-returned")
         if s["panic"]:
             keys.append("executor-panic")
         tr = traces[tid]
